@@ -587,6 +587,43 @@ fn run_case(lines: &[String], out: &mut String) {
                     .collect();
                 guarded(|| a.handle_syscalls(list).map_err(es), |_| String::new())
             }
+            "xframe" => {
+                // the entry frame as the guest reads it: n words above RSP+8 and the strings they point to
+                let n = hex(t[1]);
+                let rsp = a.reg_read_64(SupportedRegister::RSP).unwrap_or(0);
+                let mut words = Vec::new();
+                for k in 0..n {
+                    match a.mem_read_64(rsp.wrapping_add(8 + 8 * k)) {
+                        Ok(v) => words.push(v),
+                        Err(_) => break,
+                    }
+                }
+                let mut line = String::from("x frame");
+                for w in &words {
+                    write!(line, " {:x}", w).unwrap();
+                }
+                out.push_str(&line);
+                out.push('\n');
+                for w in words.iter().skip(1) {
+                    if *w == 0 {
+                        continue;
+                    }
+                    let mut s = Vec::new();
+                    let mut ok = true;
+                    for k in 0..8192u64 {
+                        match a.mem_read_8(w.wrapping_add(k)) {
+                            Ok(0) => break,
+                            Ok(b) => s.push(b as u8),
+                            Err(_) => {
+                                ok = false;
+                                break;
+                            }
+                        }
+                    }
+                    writeln!(out, "x str {:x} {} {}", w, if ok { "ok" } else { "unreadable" }, hexs(&s)).unwrap();
+                }
+                continue;
+            }
             "render" => {
                 // indentation width of every rendered line (the only fallible part of the renderers)
                 fn indents(text: &str, skip_tail: usize) -> String {
